@@ -22,7 +22,7 @@ claimed = {
  "C07": ("choice-point DFS over map iteration orders on the instrumented build: every execution with <=1 (small inputs: <=2) deviating map orders (all k! orders up to 4 keys, rotations/transpositions/reversal beyond) must return the byte-identical layout; plus repeat-in-process, caller's-data-unmodified, and a fresh-process pass on the uninstrumented build", "stateless choice-point search (deviation-bounded) over instrumented map ranges + conformance pass against the uninstrumented build", "2.1, 2.4-E2, 4-C07"),
  "C08": ("bounded exhaustive differential check: all edge lists up to depth 3/4 (thorough 4/5) x every injective renaming of <=2 (<=1) nodes into an adversarial name pool + all-node renamings; Layout(rename(G)) == rename(Layout(G)) field by field", E1 + " under a deviation-bounded renaming family", "4-C08"),
  "C09": ("bounded exhaustive differential check: every ordered pair/triple of small connected graphs x ALL order-preserving interleavings of their edge lists; each part of the union's layout must equal its solo layout translated horizontally, extents disjoint", "explicit-state search over interleaved AddEdge histories of disjoint unions, differential oracle against solo runs", "4-C09"),
- "C15": ("stateless interleaving search under a cooperative scheduler on the sched-instrumented build: k=2 (all ordered pairs of a 6-item pool) and k=3 concurrent Layout calls, EVERY interleaving of the accesses to package-level variables (unbounded preemptions, state-key pruning); oracle: result == solo result, no conflicting access pair, global snapshot unchanged; plus the static table of every package-level variable with its read/write sites; plus a separate free-running -race pass", "controlled-scheduler interleaving exploration (hand-written, DFS with state-key pruning) + separate free-running race-detector pass", "2.4-E4, 4-C15"),
+ "C15": ("stateless interleaving search under a cooperative scheduler on the sched-instrumented build: k=2 (all ordered pairs of a 6-item pool) and k=3 concurrent Layout calls, EVERY interleaving of the accesses to package-level variables and of the calls on sync objects reached through them (unbounded preemptions with state-key pruning when the scenario fits the schedule budget — it does on the current tree — otherwise iterative context bounding with the completed preemption bound reported); oracle: result == solo result, no pair of conflicting accesses without a common lock / Once ordering (lockset + Once happens-before), no deadlock; plus the static table of every package-level variable with its read/write sites; plus a separate free-running -race pass", "controlled-scheduler interleaving exploration (hand-written, DFS with state-key pruning) + separate free-running race-detector pass", "2.4-E4, 4-C15"),
  "C17": ("bounded exhaustive differential check: all edge lists up to depth 3/4 (4/5) x positioners x routers x every scale factor 2^k, k=-3..6: Layout(c x sizes) == c x Layout(sizes), exact", E1 + ", differential (scale) oracle", "4-C17"),
  "C18": ("explicit-state search over histories of Layout calls: breadth-first over global snapshots (generated for every package-level variable) until closure, plus EVERY history of <=3 (thorough 4) calls over a 24-operation alphabet (graphs x {no monitor, recording, panicking monitor}, empty graph, malformed edge)", "explicit-state BFS over call histories with the generated global snapshot as state key", "2.4-E3, 4-C18"),
  "C19": ("bounded exhaustive: every well-formed corridor of <=4 (thorough 5) rectangles on a 5-value grid x 36 general-position start/end points + the degenerate positions for k<=2 (known finding); oracle: exact segment-in-corridor test and visibility-graph Dijkstra length", "exhaustive grid enumeration of corridors on the real geom.Shortest against a reference model", "2.4-E5, 4-C19"),
@@ -62,7 +62,7 @@ m = {
               "kind_free_text": "hand-written bounded explicit-state explorer: type-aware instrumenter (vmc/instr) + supervisor (vmc/super) + worker compiled into the module under test via go build -overlay (vmc/_src)"}],
  "checks": checks,
  "not_applicable": na,
- "notes": "All checks rebuild the worker from /repo's current working tree. Known findings: /verif/known_findings.json.",
+ "notes": "All checks rebuild the worker from /repo's current working tree. Known findings: /verif/known_findings.json (3 known, 19 fixed). Detection record: mutants/ (own catalogue, negative controls, refactorings) and seeded/ (40 changes by independent sub-agents); DESIGN.md §9.",
 }
 json.dump(m, open(f"{V}/MANIFEST.json", "w"), indent=1)
 try:
